@@ -59,6 +59,24 @@ func (w *Writer) wrapUintCast(expr string, argHandle ir.ExpressionHandle) string
 	return fmt.Sprintf("uvec%d(%s)", vecSize, expr)
 }
 
+// exprVectorSize returns the vector size of an expression's type (0 for scalars).
+func (w *Writer) exprVectorSize(handle ir.ExpressionHandle) int {
+	if w.currentFunction == nil || int(handle) >= len(w.currentFunction.ExpressionTypes) {
+		return 0
+	}
+	res := &w.currentFunction.ExpressionTypes[handle]
+	var inner ir.TypeInner
+	if res.Handle != nil && int(*res.Handle) < len(w.module.Types) {
+		inner = w.module.Types[*res.Handle].Inner
+	} else {
+		inner = res.Value
+	}
+	if vec, ok := inner.(ir.VectorType); ok {
+		return int(vec.Size)
+	}
+	return 0
+}
+
 // GLSL type name constants for repeated use.
 const (
 	glslTypeInt   = "int"
@@ -916,11 +934,31 @@ func (w *Writer) writeMath(m ir.ExprMath) (string, error) {
 		// findLSB always returns signed; cast to unsigned if arg is unsigned
 		return w.wrapUintCast(fmt.Sprintf("findLSB(%s)", argStr), m.Arg), nil
 	case ir.MathCountLeadingZeros:
-		// GLSL doesn't have direct clz, use workaround
-		return fmt.Sprintf("(31 - findMSB(%s))", args[0]), nil
+		// GLSL doesn't have direct clz, use findMSB. For a negative signed value
+		// findMSB looks for the highest 0 bit, while the value has no leading zeros.
+		_, isUint := w.isUnsignedExpr(m.Arg)
+		if isUint {
+			return fmt.Sprintf("(31 - findMSB(%s))", args[0]), nil
+		}
+		vecSize := w.exprVectorSize(m.Arg)
+		if vecSize == 0 {
+			return fmt.Sprintf("(%s < 0 ? 0 : 31 - findMSB(%s))", args[0], args[0]), nil
+		}
+		return fmt.Sprintf("mix(ivec%d(31) - findMSB(%s), ivec%d(0), lessThan(%s, ivec%d(0)))", vecSize, args[0], vecSize, args[0], vecSize), nil
 	case ir.MathCountTrailingZeros:
-		// GLSL doesn't have direct ctz, use findLSB
-		return fmt.Sprintf("findLSB(%s)", argStr), nil
+		// GLSL doesn't have direct ctz: findLSB gives -1 for 0 where WGSL prescribes 32.
+		_, isUint := w.isUnsignedExpr(m.Arg)
+		vecSize := w.exprVectorSize(m.Arg)
+		switch {
+		case isUint && vecSize == 0:
+			return fmt.Sprintf("min(uint(findLSB(%s)), 32u)", argStr), nil
+		case isUint:
+			return fmt.Sprintf("min(uvec%d(findLSB(%s)), 32u)", vecSize, argStr), nil
+		case vecSize == 0:
+			return fmt.Sprintf("int(min(uint(findLSB(%s)), 32u))", argStr), nil
+		default:
+			return fmt.Sprintf("ivec%d(min(uvec%d(findLSB(%s)), 32u))", vecSize, vecSize, argStr), nil
+		}
 	case ir.MathExtractBits:
 		// Rust naga: clamp offset and count for safety
 		// bitfieldExtract(val, int(min(offset, 32u)), int(min(count, 32u - min(offset, 32u))))
